@@ -273,6 +273,7 @@ func c05(r *core.Report) {
 	// edge, so a session must be ready whenever it returns application data
 	r.Rule("C05-NO-HIDDEN-READY", "a session transition that returns an error changes nothing (in particular it does not make the session ready)", 1)
 	r.Rule("C05-APP-READY", "every session transition that returns application data ends in a ready state", 2)
+	r.Rule("C05-PROVEN-BEFORE-DATA", "every session state that can send or receive application data was reached through the role's signature verification", 4)
 	if ts := buildTypestate(r); ts != nil {
 		if ts.err != nil {
 			r.Fail("typestate extraction failed: %v", ts.err)
@@ -281,6 +282,10 @@ func c05(r *core.Report) {
 			// the channel judges the key only when a delivery SUCCEEDS and leaves the session ready:
 			// a transition that makes the session ready and then reports an error hides the ready edge
 			ts.checkAtomicFail("C05-NO-HIDDEN-READY")
+			// the key the channel judges is the key the peer CLAIMED in its hello; the claim is public and
+			// signs only a timestamp. "Only a holder of the accepted key talks" needs every usable state
+			// to lie behind the role's proof-of-possession transition (shared with C03-AUTH-PATH)
+			ts.checkAuthPath("C05-PROVEN-BEFORE-DATA")
 		}
 	}
 }
